@@ -484,3 +484,19 @@ def role_preserving(ctx, fx, H, rule):
             else:
                 ctx.ok(rule, fn, what, "claims argument derives from the claims parameter (or a disclosure reached through it), selection argument from the selection parameter", line=t.get("line"))
     ctx.floor(rule, "recursive calls between the selection walkers", n, 4)
+    # positional pairing: where claims and selection are zipped, both sides are the parameters' own element sequences; an adaptor that drops
+    # or reorders elements on one side (filter, skip, rev, …) shifts every later selector onto the wrong element
+    DROP = {"filter", "filter_map", "skip", "take", "step_by", "rev", "skip_while", "take_while", "chain", "flat_map", "peekable", "map_while"}
+    nz = 0
+    for fn in H.sel_fns:
+        for lp in next_loops(fn):
+            if "std::iter::Zip" not in lp.iter_ty:
+                continue
+            nz += 1
+            bad = [(vstr(r, 2), [a for a in ad if a in DROP]) for (r, ad) in lp.sources() if any(a in DROP for a in ad)]
+            if bad:
+                ctx.finding(rule, fn, "positional-zip", "claims and selection are paired by position, but one side of the zip is %s passed through %s: elements are dropped or reordered, so selectors "
+                            "address the wrong elements (e.g. when narrowing a presentation that withholds an earlier element)" % (bad[0][0], bad[0][1]), line=fn.term(lp.bb).get("line"))
+            else:
+                ctx.ok(rule, fn, "positional-zip", "both sides of the positional zip are the parameters' own element sequences (no dropping / reordering adaptor)", line=fn.term(lp.bb).get("line"))
+    ctx.floor(rule, "positional zips of claims and selection", nz, 1)
